@@ -1108,6 +1108,44 @@ func runGccontainer(c *Ctx) {
 				sprintf("a path of SwapValue enters the container's critical section %d times: the value it returns (or stores) is not the one its own read-modify-write produced", n), p)
 		})
 	}
+	// values of the container's element type are compared through the comparison helper only (the
+	// custom equality decides what "empty", "same" and "changed" mean for every operation alike)
+	for _, d := range pkgDecls(c, "ccontainer") {
+		d := d
+		if rn := core.RecvNamed(d.Obj); rn == nil || rn.Obj().Name() != "CContainer" {
+			continue
+		}
+		callsEqual := false
+		ast.Inspect(d.Decl.Body, func(n ast.Node) bool {
+			if call, ok := n.(*ast.CallExpr); ok {
+				if fv := fieldVar(call.Fun, &core.Frame{Pkg: d.Pkg}); fv != nil && core.FieldName(fv) == "ccontainer.CContainer.equal" {
+					callsEqual = true
+				}
+			}
+			return true
+		})
+		if callsEqual {
+			continue // the comparison helper itself
+		}
+		direct := token.NoPos
+		ast.Inspect(d.Decl.Body, func(n ast.Node) bool {
+			be, ok := n.(*ast.BinaryExpr)
+			if !ok || (be.Op != token.EQL && be.Op != token.NEQ) {
+				return true
+			}
+			for _, side := range []ast.Expr{be.X, be.Y} {
+				if t := d.Pkg.TypesInfo.TypeOf(side); t != nil {
+					if _, isTP := t.(*types.TypeParam); isTP && !direct.IsValid() {
+						direct = be.Pos()
+					}
+				}
+			}
+			return true
+		})
+		a.note("R12", core.FuncName(d.Obj)+"/values-compared-through-compare", d.Decl.Pos(), direct.IsValid(),
+			"values of the element type are compared through the container's comparison helper only",
+			"the method compares two values of the element type with == / != instead of the container's comparison helper: with a custom equality it disagrees with every other operation about what is empty or unchanged", nil)
+	}
 	// the comparison helper (the function that calls the custom equal field): two different values
 	// are declared different only after the custom equality was consulted, or when there is none
 	const equalF = "ccontainer.CContainer.equal"
